@@ -25,7 +25,9 @@ BOUNDS = {'quick': {'T': 4}, 'thorough': {'T': 5}}
 # longer skeletons with one or two symbolic slots `_` (separator / closer / operand positions)
 SKELETONS = ['[1_2]', '[1,2_', '[1_', '{1_2}', '{1:2_3:4}', '{1:2_', 'a(1_2)', 'a(1,2_', 'a(_)', '1?1_1', '1?2:3_4',
              '(1_2)', '(1+2_', '[1,2]_3', '1_2_3', '[_]_', '{_:_}', 'a(_,_)', '1 _ 2 _', '"a"_"b"', "[1,_,2]", '{1:_,2:3}',
-             '1;_;2', '(_)_', '[[1]_[2]]', 'a(a(1)_2)', '1?(2_3):4', '-_1', '1+_', '!_']
+             '1;_;2', '(_)_', '[[1]_[2]]', 'a(a(1)_2)', '1?(2_3):4', '-_1', '1+_', '!_',
+             # a string literal (any one-character content) where a separator or closer is required
+             "[1'_'2]", 'a(1"_"2)', "{1'_'2}", "{1:2'_'3:4}", "1?2'_'3", "[1'_'", "a(1'_'", "{1:2'_'", "('_'1)", "[1,2'_'"]
 
 
 def prepare(it):
